@@ -14,13 +14,16 @@ SPEC = dict(
                 "delta (the conversion is total since the fix of F-2); format-12 iteration yields exactly the sorted input pairs and the groups are "
                 "ascending, disjoint, maximal; format 12 is emitted iff some char is beyond the BMP (format 4 iff some char is inside); conflicts "
                 "are reported iff real; skrifa Charmap::map through subtable selection equals the mapping, and Charmap::mappings equals the sorted "
-                "input when a format-12 subtable exists (U+10FFFF included). The model is "
+                "input (U+10FFFF included). The model is "
                 "tied to the code on every run: ~1300 small mappings, ~450 arbitrary/malformed decoded format-4 tables, ~300 format-12 tables and "
                 "~225 format-14 tables are run through the real code and through the model (segment arrays, groups, lookups, iterations, skrifa "
                 "Charmap answers compared). Independently of the model, every built table is swept over all 65 536 BMP code points and a boundary "
                 "set beyond against the input mapping through Cmap, Cmap4, Cmap12 and skrifa Charmap (map, mappings), and format-14 answers are "
-                "compared with what was encoded. Format-4 iteration (hence Charmap::mappings of BMP-only fonts) and format-14 lookup have a model that "
-                "is checked against the code but no Coq theorem: partial for those."),
+                "compared with what was encoded. Round 2: cmap4_iter_exact (Cmap4Iter = BMP part of the input ++ the sentinel pair (0xFFFF,0) iff U+FFFF is unmapped), "
+                "charmap_mappings_exact in every selection case, fits4_exact / format4_build_total / format4_build_panics_beyond_fits4 / "
+                "format4_build_refuted_beyond_fits4 (fits4 = exactly the mappings on which create_format_4 and compute_length do not panic; beyond it the "
+                "code panics: known finding F-9), and cmap14_answers (Cmap14::map_variant = the encoded default / non-default / absent answer on every "
+                "well-formed selector table; the shards evaluate both the model and this specification on tables built with the write-fonts cmap14 types)."),
     level_note=("Trusted: Coq kernel; the hand-written model coq/C08/Model.v at the level of decoded arrays (its agreement with the Rust code is "
                 "checked by vm_compute on every run, not proved; the byte codec of the compiled table is C04's business and is exercised here only "
                 "through dump_table -> read); the harness generator. Theorems are conditional on from_mappings returning a table: it still panics for BMP mappings whose format-4 "
@@ -29,11 +32,10 @@ SPEC = dict(
     modelled=["write-fonts/src/tables/cmap.rs: Cmap::from_mappings, CmapSubtable::create_format_4, create_format_12, Format4Segment::{len,cost,can_combine,should_combine,combine}, Format4SegmentComputer::{new,make_segment,next_possible_segment,compute}, Cmap4::compute_length",
               "read-fonts/src/tables/cmap.rs: Cmap::map_codepoint, Cmap4::{map_codepoint,lookup_glyph_id,code_range}, Cmap4Iter, Cmap12::{map_codepoint,lookup_glyph_id,group}, Cmap12Iter (+Cmap12IterLimits), Cmap14::map_variant (textbook binary search over well-formed tables)",
               "skrifa/src/charmap.rs: MappingSelection::new (codepoint subtable choice), Charmap::{map,mappings}, CodepointSubtable::{map,map_impl}"],
-    not_covered=["cmap4_iter_exact (Cmap4Iter yields exactly the BMP pairs plus the sentinel pair (0xFFFF,0)): model + correspondence + oracle only, no Coq theorem",
-                 "charmap_mappings_exact for fonts whose selected subtable is format 4 (BMP-only): needs cmap4_iter_exact; model + correspondence + oracle only",
-                 "cmap14_answers (default / non-default / absent): implementation-only oracle against the encoded tables plus model correspondence; there is no variation-selector builder in write-fonts/src/tables/cmap.rs",
-                 "totality of the builder (exact characterisation of when from_mappings returns a table): the delta conversion is proved total; the length / id_range_offset overflow panics (F-9) are modelled and exercised, not characterised by a theorem",
-                 "optimality of the segment computer (not required by the property); byte-level layout of the compiled table (C04); Cmap14Iter, Cmap::closure_glyphs; symbol-encoded fonts (PUA remap) are modelled but never produced by from_mappings"],
+    not_covered=["a closed-form (segment-independent) description of fits4: fits4 is computed from the segments the segment computer chooses; only the sharp isolated-points limit (8188 fit, 8189 do not) is proved as an instance",
+                 "Cmap14Iter / Charmap::variant_mappings and Cmap12Iter with arbitrary limits on malformed tables: model (Cmap12Iter) + correspondence + oracle only",
+                 "reader behaviour on malformed format-4/12 arrays: model + correspondence only (no theorem; the property speaks about built tables)",
+                 "optimality of the segment computer (not required by the property); byte-level layout of the compiled table (C04); Cmap::closure_glyphs; symbol-encoded fonts (PUA remap) are modelled but never produced by from_mappings"],
     assumptions=["Rust integer semantics as in coq/Lib/RustInt.v; Vec::sort on (char, GlyphId) = the unique ascending arrangement (total order, equal elements identical)",
                  "from_mappings hands create_format_12 strictly ascending char codes (proved: canon_asc), so its HashMap/dedup indirection is the identity and is not modelled",
                  "u32 overflow of prev_gid+1 for gid = u32::MAX is subsumed by create_format_4's assert on 16-bit gids (both panic)"],
